@@ -85,6 +85,10 @@ func c03(w *core.World, r *core.Report) {
 	ruleStreamMasterFields(w, r)
 	r.Rule("R20.2", "the key-exists policy the replay paths switch on is one of the three they know: the configuration normalises to that set (shared with C20)", 2)
 	rulePolicySet(w, r)
+	r.Rule("R03.16", "the LZF control byte is split 3 + 5 bits: length from bits 5..7, distance high part from bits 0..4", 1)
+	ruleLzfControlByte(w, r)
+	r.Rule("R03.15", "a key with an expiry is never replayed with ttl 0 (RESTORE's 'no expiry'): the remaining life is used only under ExpireAt > now", 1)
+	ruleTtlNeverZero(w, r)
 	r.Rule("R03.14", "nil means 'end of the packed structure' and nothing else: an element (also an empty one) is never answered with nil", 3)
 	ruleNilIsEndOnly(w, r)
 	r.Rule("R20.11", "chunks of one key are appended in order by one worker: the distributor picks the worker of a keyed entry from the key alone (shared with C20)", 1)
@@ -1182,4 +1186,166 @@ func ruleNilIsEndOnly(w *core.World, r *core.Report) {
 		}
 		r.Check(bad == "" && n > 0, "ReadZiplistEntry2/never-nil", pos, "%s", bad)
 	}
+}
+
+// ---------------------------------------------------------------- R03.15 a key with an expiry is never replayed with ttl 0
+
+// ruleTtlNeverZero: the remaining life of a key is handed to RESTORE as its ttl
+// argument, and RESTORE reads ttl 0 as "no expiry". An entry that carries an
+// expiry must therefore never be replayed with 0: the difference ExpireAt − now
+// may be used only where the tests in force say ExpireAt > now strictly (at
+// ExpireAt == now the difference is 0 and the key the source is dropping lives on
+// for ever on the target); everything else must be a positive constant.
+func ruleTtlNeverZero(w *core.World, r *core.Report) {
+	f := fn(w, r, "(*pkg/rdbrestore.RdbReplay).Replay")
+	if f == nil {
+		return
+	}
+	isExpire := func(v ssa.Value) bool { return fieldNameOfLoad(core.Unwrap(v)) == "ExpireAt" }
+	n := 0
+	for _, g := range reachableFuncs(f) {
+		if g != f && !(core.Transparent != nil && core.Transparent(g)) {
+			continue
+		}
+		for _, in := range core.OwnInstrs(g) {
+			sub, ok := in.(*ssa.BinOp)
+			if !ok || sub.Op != token.SUB || !isExpire(sub.X) {
+				continue
+			}
+			n++
+			strict := false
+			for _, fct := range core.FactsAt(sub.Block()) {
+				c, ok := core.FactCmp(fct)
+				if !ok {
+					continue
+				}
+				x, y := core.Unwrap(c.X), core.Unwrap(c.Y)
+				a, b := core.Unwrap(sub.X), core.Unwrap(sub.Y)
+				sameExp := func(v ssa.Value) bool { return v == a || isExpire(v) }
+				if (c.Op == token.GTR && sameExp(x) && y == b) || (c.Op == token.LSS && x == b && sameExp(y)) {
+					strict = true
+				}
+			}
+			r.Check(strict, shortName(core.FuncName(g))+"/ttl-never-zero", sub.Pos(), "the remaining life ExpireAt − now is used where the tests in force do not say ExpireAt > now strictly: at equality the ttl is 0, which RESTORE reads as 'no expiry' — the key never expires on the target")
+			// the other values the ttl can take: positive constants (0 only as the initial 'no expiry' value)
+			if refs := sub.Referrers(); refs != nil {
+				for _, ref := range *refs {
+					ph, isPhi := ref.(*ssa.Phi)
+					if !isPhi {
+						continue
+					}
+					for i, e := range ph.Edges {
+						k, isK := core.ConstInt(e)
+						if !isK {
+							continue
+						}
+						if k == 0 {
+							// allowed only on the edge that skipped the expiry block altogether
+							hasExp := false
+							for _, fct := range core.FactsAt(ph.Block().Preds[i]) {
+								if c, ok := core.FactCmp(fct); ok && c.Op == token.NEQ && isExpire(c.X) {
+									hasExp = true
+								}
+							}
+							if !hasExp && ph.Block().Preds[i] != sub.Block() {
+								continue
+							}
+						}
+						r.Check(k > 0, shortName(core.FuncName(g))+"/ttl-never-zero", ph.Pos(), "an entry with an expiry gets the constant ttl %d", k)
+					}
+				}
+			}
+		}
+	}
+	if n == 0 {
+		r.Undecided("Replay/ttl-never-zero", f.Pos(), "the computation of the remaining life (ExpireAt − now) was not found")
+	}
+}
+
+// ---------------------------------------------------------------- R03.16 the LZF control byte is split 3 + 5 bits
+
+// ruleLzfControlByte: compressed strings and packed structures are LZF blobs. A
+// control byte below 32 starts a literal run; otherwise its top three bits are
+// the match length and its low FIVE bits the high part of the 13-bit distance.
+// A narrower mask keeps the output length right (the only thing the decoder
+// checks) and silently copies from the wrong place for every distance of 4096
+// and more. Decided on the bit-level normal form of the expressions (whatever
+// way they are written): (x << 8) must be bits 0..4 of the control byte at
+// positions 8..12, the length bits 5..7 at positions 0..2.
+func ruleLzfControlByte(w *core.World, r *core.Report) {
+	f := fn(w, r, "pkg/rdb.lzfDecompress")
+	if f == nil {
+		return
+	}
+	in := ssa.Value(f.Params[0])
+	isCtrl := func(v ssa.Value) bool {
+		// a byte of the input: in[i]
+		switch x := v.(type) {
+		case *ssa.UnOp:
+			if ia, ok := x.X.(*ssa.IndexAddr); ok && x.Op == token.MUL && ia.X == in {
+				return true
+			}
+		case *ssa.Index:
+			return x.X == in
+		}
+		return false
+	}
+	newEnv := func() *bvEnv {
+		return &bvEnv{sub: map[ssa.Value]ssa.Value{}, leaf: func(v ssa.Value) (int, int, bool) {
+			if isCtrl(v) {
+				return 0, 8, true
+			}
+			return 0, 0, false
+		}}
+	}
+	okDist, okLen, nDist, nLen := true, true, 0, 0
+	var pos token.Pos = f.Pos()
+	for _, g := range reachableFuncs(f) {
+		if g != f && !(core.Transparent != nil && core.Transparent(g)) {
+			continue
+		}
+		for _, ins := range core.OwnInstrs(g) {
+			b, ok := ins.(*ssa.BinOp)
+			if !ok {
+				continue
+			}
+			k, isK := constShift(b.Y)
+			if !isK {
+				continue
+			}
+			switch {
+			case b.Op == token.SHL && k == 8:
+				got, ok := newEnv().norm(b)
+				if !ok {
+					continue
+				}
+				nDist++
+				for j := 0; j < 64; j++ {
+					want := uint64(0)
+					if j >= 8 && j <= 12 {
+						want = 1 << uint(j-8)
+					}
+					if got.lin[j] != want {
+						okDist, pos = false, b.Pos()
+					}
+				}
+			case b.Op == token.SHR && k == 5:
+				got, ok := newEnv().norm(b)
+				if !ok {
+					continue
+				}
+				nLen++
+				for j := 0; j < 64; j++ {
+					want := uint64(0)
+					if j <= 2 {
+						want = 1 << uint(j+5)
+					}
+					if got.lin[j] != want {
+						okLen, pos = false, b.Pos()
+					}
+				}
+			}
+		}
+	}
+	r.Check(okDist && okLen && nDist >= 1 && nLen >= 1, "lzfDecompress/control-byte", pos, "the control byte must be split into length = bits 5..7 (ok: %v, sites %d) and distance high part = bits 0..4, shifted to 8..12 (ok: %v, sites %d): a narrower mask copies from the wrong place for distances of 4096 and more while the output length stays right", okLen, nLen, okDist, nDist)
 }
